@@ -19,13 +19,14 @@ from vf import core
 
 VERIF = core.VERIF
 PY = sys.executable
+EVDIR = os.environ.get("VERIF_EVIDENCE_DIR") or os.path.join(VERIF, "evidence")
 
 
 def run_worker(job):
   fd, out = tempfile.mkstemp(prefix="vfw_", suffix=".json")
   os.close(fd)
   env = dict(os.environ)
-  env["PYTHONPATH"] = VERIF + os.pathsep + env.get("PYTHONPATH", "")
+  env["PYTHONPATH"] = core.REPO + os.pathsep + VERIF + os.pathsep + env.get("PYTHONPATH", "")
   env["PYTHONHASHSEED"] = "0"
   hard = float(job.get("timeout", 300)) * 1.5 + 60
   t0 = time.time()
@@ -49,7 +50,7 @@ def run_worker(job):
 def run_replay(prop, harness, case, timeout=120):
   """re-execute one concrete case in a plain python process (no CrossHair)"""
   env = dict(os.environ)
-  env["PYTHONPATH"] = VERIF + os.pathsep + env.get("PYTHONPATH", "")
+  env["PYTHONPATH"] = core.REPO + os.pathsep + VERIF + os.pathsep + env.get("PYTHONPATH", "")
   try:
     p = subprocess.run([PY, "-m", "vf.replay", prop, harness, json.dumps(case)], cwd=VERIF, env=env,
                        stdout=subprocess.PIPE, stderr=subprocess.PIPE, timeout=timeout)
@@ -62,7 +63,7 @@ def run_replay(prop, harness, case, timeout=120):
 
 
 def write_replay_file(prop_id, n, harness, case, sig, detail):
-  d = os.path.join(VERIF, "evidence", "replays")
+  d = os.path.join(EVDIR, "replays")
   os.makedirs(d, exist_ok=True)
   path = os.path.join(d, "%s-%d.json" % (prop_id, n))
   with open(path, "w") as f:
@@ -271,8 +272,8 @@ def main(argv=None):
     "wall_s": round(wall, 2),
     "violations": len(violations),
   }
-  os.makedirs(os.path.join(VERIF, "evidence"), exist_ok=True)
-  with open(os.path.join(VERIF, "evidence", pid + ".json"), "w") as f:
+  os.makedirs(EVDIR, exist_ok=True)
+  with open(os.path.join(EVDIR, pid + ".json"), "w") as f:
     json.dump(ev, f, indent=1)
 
   for sig, k in sorted(known_hits.items()):
